@@ -20,7 +20,7 @@ CASES = [
       "            self.F4n[1] = numpy.dot(d[3,:],d[1,:])*numpy.dot(d[2,:],d[0,:])\n            self.F4n[2] = numpy.dot(d[3,:],d[0,:])*numpy.dot(d[2,:],d[1,:]) ",
       "            self.F4n[2] = numpy.dot(d[3,:],d[1,:])*numpy.dot(d[2,:],d[0,:])\n            self.F4n[1] = numpy.dot(d[3,:],d[0,:])*numpy.dot(d[2,:],d[1,:]) "),
     m("a matching repeated", "C12-B", L,
-      "            F4e[2] = numpy.dot(e[3,:],e[0,:])*numpy.dot(e[2,:],e[1,:])", "            F4e[2] = numpy.dot(e[3,:],e[1,:])*numpy.dot(e[2,:],e[0,:])"),
+      "        F4e[2] = numpy.dot(e[3,:],e[0,:])*numpy.dot(e[2,:],e[1,:])", "        F4e[2] = numpy.dot(e[3,:],e[1,:])*numpy.dot(e[2,:],e[0,:])"),
     m("prefactor without the pathway sign", "C12-B", D, "            self.pref = self.sign*(numpy.dot(lab.F4eM4,self.F4n)", "            self.pref = (numpy.dot(lab.F4eM4,self.F4n)"),
     m("detection polarisation stored in row 2", "C12-B", L, "            self.e[3,:] = detection_polarization", "            self.e[2,:] = detection_polarization"),
     m("a dipole used twice", "C12-C", D,
@@ -110,4 +110,17 @@ CASES += [
         (_MOCK, "        H = eUt.get_Hamiltonian()\n    \n", "        if getattr(self, \"_ham_kept\", None) is None:\n            self._ham_kept = eUt.get_Hamiltonian()\n        H = self._ham_kept\n    \n", 1)]},
     {"name": "Hamiltonian asked for under another local name", "kind": "twin", "edits": [
         (_MOCK, "        H = eUt.get_Hamiltonian()\n    \n", "        ham_of_u = eUt.get_Hamiltonian()\n        H = ham_of_u\n    \n", 1)]},
+]
+
+_LAB12 = "quantarhei/spectroscopy/labsetup.py"
+CASES += [
+    {"name": "averaging vector stored when the polarisations are set, field objects write rows of e (the repaired defect)", "kind": "mutant", "rule": "C12-O", "edits": [
+        (_LAB12, "    @property\n    def F4eM4(self):", "    def _F4eM4_now(self):", 1),
+        (_LAB12, "    @F4eM4.setter\n    def F4eM4(self, value):", "    def _F4eM4_ignored(self, value):", 1),
+        (_LAB12, "            # (the vector F4eM4 for orientational averaging is derived from \n", "            self.F4eM4 = self._F4eM4_now()\n            # (the vector F4eM4 for orientational averaging is derived from \n", 1)]},
+    {"name": "averaging vector stored, and derived again by the field object that writes a polarisation", "kind": "twin", "edits": [
+        (_LAB12, "    @property\n    def F4eM4(self):", "    def _F4eM4_now(self):", 1),
+        (_LAB12, "    @F4eM4.setter\n    def F4eM4(self, value):", "    def _F4eM4_ignored(self, value):", 1),
+        (_LAB12, "            # (the vector F4eM4 for orientational averaging is derived from \n", "            self.F4eM4 = self._F4eM4_now()\n            # (the vector F4eM4 for orientational averaging is derived from \n", 1),
+        (_LAB12, "        self.labsetup.e[self.index,:] = pol\n", "        self.labsetup.e[self.index,:] = pol\n        self.labsetup.F4eM4 = self.labsetup._F4eM4_now()\n", 1)]},
 ]
